@@ -42,7 +42,7 @@ func main() {
 		if c.Choices == nil {
 			cj = []byte("[]")
 		}
-		out, err := exec.Command(filepath.Join(ev.Root, ".work", "bin", "sched"), "replay", c.Scenario, string(cj)).CombinedOutput()
+		out, err := exec.Command(filepath.Join(ev.Work(), "bin", "sched"), "replay", c.Scenario, string(cj)).CombinedOutput()
 		fmt.Print(string(out))
 		if err != nil {
 			r.Violation(family(c.Scenario)+"/"+c.Kind, "replayed execution violates: "+string(out), c)
